@@ -169,7 +169,7 @@ def execute(case, sched=None):
             for vid, r0, r1 in zip(base["requested"], base["results"], o["results"]):
                 if shadow.random[vid]:
                     continue
-                d = G.compare(r1, r0, exact=shadow.exact[vid])
+                d = G.compare(r1, r0, exact=shadow.exact[vid], lowprec=shadow.lowprec[vid])
                 if d is not None:
                     violations.append(dict(cls="values_differ_between_configurations",
                                            msg=f"value {vid}: {base['variant']} vs {o['variant']}: {d}"))
@@ -178,7 +178,7 @@ def execute(case, sched=None):
             for vid, r in zip(o["requested"], o["results"]):
                 if shadow.random[vid]:
                     continue
-                d = G.compare(r, shadow.values[vid], exact=shadow.exact[vid])
+                d = G.compare(r, shadow.values[vid], exact=shadow.exact[vid], lowprec=shadow.lowprec[vid])
                 if d is not None:
                     violations.append(dict(cls="wrong_value", msg=f"{o['variant']} value {vid}: {d}"))
                     break
